@@ -28,6 +28,10 @@ declare -A MAP=(
  [C20-shutdown-releases-recorded-calls]="C20" [C16-parallel-backend-path-cached-list]="C16 C18" [C03-resolver-event-cleared-after-pass]="C03 C02"
  [C07-semaphore-slots-released-twice]="C07" [C10-spawner-stores-abspath-of-cwd]="C10 C16" [C02-settled-when-any-input-cancelled]="C02 C06"
  [C06-cancelled-call-remembered-as-cached]="C06"
+ [C08-cached-output-lru-shared-object]="C08 C09" [C01-cache-key-sorts-keyword-arguments]="C01 C08" [C12-second-shutdown-drops-queued-stop-messages]="C12 C05"
+ [C13-duplicate-chained-with-late-bound-future]="C13" [C14-rename-inside-open-file-block]="C14" [C19-resource-dict-validated-once-by-identity]="C19"
+ [C11-plain-calls-bypass-the-resolver]="C11" [C05-cancelled-call-skipped-without-task-done]="C05 C06" [C18-waitlist-forwards-clean-copy-without-resources]="C18 C10"
+ [C04-every-failed-input-sets-the-exception]="C04"
  [C18-returned-exception-treated-as-raised]="C18" [C12-shutdown-skipped-when-not-yet-connected]="C12" [C19-base-init-after-default-cores]="C19" [C20-dedup-edges-per-node-pair]="C20"
 )
 # every seed runs against its own scratch worktree of /repo (tools/seed_wt.sh): /repo, /verif/evidence and /verif/out stay untouched
